@@ -50,6 +50,15 @@ class Env:
             if hasattr(self.mod, cls):
                 self.pools[cls] = [getattr(self.mod, cls)() for _ in range(4)]
         self.objectv = object()
+        # const-wrapped instances, obtained the way Python code gets them
+        self.owners = {}
+        for code, cls in L.CONST_INSTANCE.items():
+            if hasattr(self.mod, cls):
+                self.owners[code] = [getattr(self.mod, cls)() for _ in range(4)]
+                getter = "vt_cptr" if cls in ("VA", "VK") else "vt_cref"
+                self.pools[code] = [getattr(o, getter)() for o in self.owners[code]]
+        if hasattr(self.mod, "VK"):
+            self.pools["VK"] = [self.mod.VK() for _ in range(4)]
 
     def trace(self):
         return self.lib.vt_trace_get().decode()
@@ -208,6 +217,7 @@ class AtomRun:
         if sid is not None:
             labels[sid] = "self"
         for i, c in enumerate(tup):
+            c = L.CONST_INSTANCE.get(c, c)
             if c == "VM":
                 labels[args[i].vt_ida()] = "a%d.A" % i
                 labels[args[i].vt_idc()] = "a%d.C" % i
